@@ -413,6 +413,8 @@ func c19Races(p *load.Prog, r *oblig.Run, g *cg.Graph) {
 func c19Errors(p *load.Prog, r *oblig.Run, g *cg.Graph) {
 	c19LetterRange(p, r)
 	c19More(p, r)
+	c19Unique(p, r)
+	c19Tabs(p, r)
 	r.Rule("R19.f", "a failing file writer is reported: write errors on the publish path are propagated, stored into the returned error, or panicked with - never dropped; the worker loop ends on the first error", 4)
 	var roots []cg.Target
 	for _, n := range []string{"Publish"} {
@@ -500,7 +502,9 @@ func c19Errors(p *load.Prog, r *oblig.Run, g *cg.Graph) {
 					used = true
 				}
 			}
-			if used {
+			if w := laterOverwrite(p, fn, errV); used && w != "" {
+				o.Fail("the error returned by " + what + " is recorded in a variable that " + w + " assigns again without looking at it: the recorded failure is replaced (by nil when that later step succeeds) and publishing succeeds silently")
+			} else if used {
 				o.OK("checked / propagated")
 			} else {
 				o.Fail("the error returned by " + what + " is never checked")
@@ -557,6 +561,101 @@ func c19Errors(p *load.Prog, r *oblig.Run, g *cg.Graph) {
 			o.Fail("after a failed WriteFile the worker keeps taking files (or the error never leaves the worker): publishing does not stop at the first failure")
 		}
 	}
+}
+
+// laterOverwrite: errV is stored into a variable (a named result or a local that
+// closures share) and another assignment to that variable - later in the
+// function, or in a closure the function defers - is not guarded by a test
+// that the variable (or errV) is nil. Returns a description of that assignment.
+func laterOverwrite(p *load.Prog, fn *ssa.Function, errV ssa.Value) string {
+	if errV.Referrers() == nil {
+		return ""
+	}
+	for _, ref := range *errV.Referrers() {
+		s0, ok := ref.(*ssa.Store)
+		if !ok || s0.Val != errV {
+			continue
+		}
+		al, ok := s0.Addr.(*ssa.Alloc)
+		if !ok {
+			continue
+		}
+		guarded := func(st *ssa.Store, addr ssa.Value) bool {
+			g := st.Parent()
+			for _, b := range g.Blocks {
+				iff, ok := b.Instrs[len(b.Instrs)-1].(*ssa.If)
+				if !ok {
+					continue
+				}
+				bo, ok := iff.Cond.(*ssa.BinOp)
+				if !ok || (bo.Op != token.EQL && bo.Op != token.NEQ) {
+					continue
+				}
+				if k, isK := bo.Y.(*ssa.Const); !isK || k.Value != nil {
+					continue
+				}
+				isVar := bo.X == errV
+				if ld, ok := bo.X.(*ssa.UnOp); ok && ld.Op == token.MUL && ld.X == addr {
+					isVar = true
+				}
+				if !isVar {
+					continue
+				}
+				side := b.Succs[0] // == nil : true side
+				if bo.Op == token.NEQ {
+					side = b.Succs[1]
+				}
+				if len(side.Preds) == 1 && side.Dominates(st.Block()) {
+					return true
+				}
+			}
+			return false
+		}
+		after := su.ReachableBlocks(s0.Block())
+		for _, r2 := range *al.Referrers() {
+			switch x := r2.(type) {
+			case *ssa.Store:
+				if x == s0 || x.Addr != ssa.Value(al) {
+					continue
+				}
+				later := false
+				if x.Block() == s0.Block() {
+					later = su.Dominates(s0, x) || after[s0.Block()]
+				} else {
+					later = after[x.Block()]
+				}
+				if later && !guarded(x, al) {
+					return "the assignment at " + p.Pos(x.Pos())
+				}
+			case *ssa.MakeClosure:
+				// only closures the function defers run after the store for certain
+				deferred := false
+				for _, r3 := range *x.Referrers() {
+					if d, ok := r3.(*ssa.Defer); ok && d.Call.Value == ssa.Value(x) {
+						deferred = true
+					}
+				}
+				if !deferred {
+					continue
+				}
+				anon := x.Fn.(*ssa.Function)
+				for i, bnd := range x.Bindings {
+					if bnd != ssa.Value(al) {
+						continue
+					}
+					fv := anon.FreeVars[i]
+					for _, b := range anon.Blocks {
+						for _, ins := range b.Instrs {
+							if st, ok := ins.(*ssa.Store); ok && st.Addr == ssa.Value(fv) && !guarded(st, fv) {
+								return "the deferred function at " + p.Pos(st.Pos())
+							}
+						}
+					}
+				}
+			}
+		}
+	}
+	return ""
 }
 
 // onErrorPath: the call is only reached when an earlier error test failed
